@@ -3,12 +3,12 @@ import itertools
 import random
 
 SCHEMES = ["", "http", "https", "ws", "wss", "ftp", "file", "svn", "x", "mailto", "HTTP", "git+ssh", "rtspu", "sftp", "tel", "nfs"]
-USERS = [None, "", "u", "u%40x", "ü", "U s", "a:b"[:1], "%41", "p%FFq", "x%E2%82", "%c3%a9%2f"]
-PASSWORDS = [None, "", "p", "p%3Aq", "p:q", "p@q"[:1], "é", "%FF", "%F0%9F%98", "%3a%40"]
+USERS = [None, "", "u", "u%40x", "ü", "U s", "a:b"[:1], "%41", "p%FFq", "x%E2%82", "%c3%a9%2f", "u[:]", "[v1.x]"]
+PASSWORDS = [None, "", "p", "p%3Aq", "p:q", "p@q"[:1], "é", "%FF", "%F0%9F%98", "%3a%40", "[p:w]"]
 HOSTS = [None, "", "example.com", "EXAMPLE.Com", "bücher.example", "Ab_c.é.com", "1.2.3.4", "[::1]",
          "[2001:DB8:0:0:0:0:0:1]", "[fe80::1%25eth0]", "[v1.fe:80]", "example.com.", "xn--bcher-kva.example", "a_b",
          "[::ffff:1.2.3.4]", "localhost", "a%41b.com", "[1:0:0:2:0:0:0:3]", "[fe80::1%25Ethernet%202]", "[fe80::1%25%41]",
-         "[0000:0000:0000:0000:0000:ffff:10.0.100.1]"]
+         "[0000:0000:0000:0000:0000:ffff:10.0.100.1]", "v2.example.com", "vad.example.org"]
 PORTS = [None, "", "0", "DEFAULT", "80", "443", "21", "8080", "65535", "65536", "080"]
 PATHS = ["", "/", "/a", "/a/", "/a//b", "a/b", "/a%2Fb/c%20d", "/é", "/a/../b", "/a/./b/%2E%2E/c", "/a.b/c.tar.gz",
          "//x", "/a b", "/%41", "/a:b@c", "a:b", "/a+b%2B", "/.", "/..", "/a/%2e", "/;p=1", "/%zz", "/%E2%82", "/a'(b)*!"]
